@@ -20,7 +20,8 @@ import (
 // Test packages are not part of the loaded program, so mocks installed by tests do not count.
 
 type fieldFacts struct {
-	fn      map[*types.Var]*ssa.Function // nil value: not unique
+	glob    map[*ssa.Global]*ssa.Function // package-level func variables; nil value: not unique
+	fn      map[*types.Var]*ssa.Function  // nil value: not unique
 	concr   map[*types.Var]types.Type    // nil value: not unique
 	hasFn   map[*types.Var]bool
 	hasConc map[*types.Var]bool
@@ -44,7 +45,7 @@ func computeFieldFacts(prog *ssa.Program, all []*ssa.Function) *fieldFacts {
 	if ff, ok := fieldFactsMemo[prog]; ok {
 		return ff
 	}
-	ff := &fieldFacts{fn: map[*types.Var]*ssa.Function{}, concr: map[*types.Var]types.Type{}, hasFn: map[*types.Var]bool{}, hasConc: map[*types.Var]bool{}}
+	ff := &fieldFacts{glob: map[*ssa.Global]*ssa.Function{}, fn: map[*types.Var]*ssa.Function{}, concr: map[*types.Var]types.Type{}, hasFn: map[*types.Var]bool{}, hasConc: map[*types.Var]bool{}}
 	note := func(fv *types.Var, val ssa.Value) {
 		switch fv.Type().Underlying().(type) {
 		case *types.Signature:
@@ -78,6 +79,11 @@ func computeFieldFacts(prog *ssa.Program, all []*ssa.Function) *fieldFacts {
 			if mi, ok := val.(*ssa.MakeInterface); ok {
 				t = mi.X.Type()
 			}
+			// a constructor that takes the dependency as a parameter: every caller of the
+			// (unexported) constructor hands it a value of one concrete type
+			if pr, ok := val.(*ssa.Parameter); ok && pr.Parent() != nil && !pr.Parent().Object().Exported() {
+				t = paramConcrete(pr, all)
+			}
 			if prev, seen := ff.concr[fv]; seen && (prev == nil || t == nil || !types.Identical(prev, t)) {
 				ff.concr[fv] = nil
 			} else if !seen {
@@ -96,6 +102,30 @@ func computeFieldFacts(prog *ssa.Program, all []*ssa.Function) *fieldFacts {
 				if fa, ok := st.Addr.(*ssa.FieldAddr); ok {
 					if fv := fieldVarOf(fa); fv != nil {
 						note(fv, st.Val)
+					}
+				}
+				// a package-level function variable (`var osRemove = os.Remove`, a test seam): every
+				// store of the program - its initialiser included - puts the same function there
+				if g, ok := st.Addr.(*ssa.Global); ok {
+					if pt, ok := g.Type().Underlying().(*types.Pointer); ok {
+						if _, isSig := pt.Elem().Underlying().(*types.Signature); isSig {
+							var f *ssa.Function
+							switch x := st.Val.(type) {
+							case *ssa.Function:
+								f = x
+							case *ssa.ChangeType:
+								f, _ = x.X.(*ssa.Function)
+							case *ssa.MakeClosure:
+								if len(x.Bindings) == 0 {
+									f, _ = x.Fn.(*ssa.Function)
+								}
+							}
+							if prev, seen := ff.glob[g]; seen && prev != f {
+								ff.glob[g] = nil
+							} else if !seen {
+								ff.glob[g] = f
+							}
+						}
 					}
 				}
 			}
@@ -214,10 +244,22 @@ func injectedCallee(cc *ssa.CallCommon) (*ssa.Function, bool) {
 		if g := forwarder(m); g != nil {
 			return g, true
 		}
+		// the one concrete type's own method
+		if m.Blocks != nil {
+			return m, false
+		}
 		return nil, false
 	}
 	if cc.StaticCallee() != nil {
 		return nil, false
+	}
+	if ld, ok := cc.Value.(*ssa.UnOp); ok && ld.Op == token.MUL {
+		if g, ok := ld.X.(*ssa.Global); ok {
+			if f := ff.glob[g]; f != nil && f.Parent() == nil {
+				return f, false
+			}
+			return nil, false
+		}
 	}
 	fv := loadedField(cc.Value)
 	if fv == nil {
@@ -238,4 +280,44 @@ func calleeOf(cc *ssa.CallCommon) *ssa.Function {
 		return g
 	}
 	return nil
+}
+
+// paramConcrete: the one concrete type every static call of the parameter's function passes for it
+// (as a direct conversion to the interface), or nil.
+func paramConcrete(pr *ssa.Parameter, all []*ssa.Function) types.Type {
+	h := pr.Parent()
+	idx := -1
+	for i, q := range h.Params {
+		if q == pr {
+			idx = i
+		}
+	}
+	if idx < 0 {
+		return nil
+	}
+	var t types.Type
+	n := 0
+	for _, f := range all {
+		for _, b := range f.Blocks {
+			for _, in := range b.Instrs {
+				ci, ok := in.(ssa.CallInstruction)
+				if !ok || ci.Common().StaticCallee() != h || idx >= len(ci.Common().Args) {
+					continue
+				}
+				n++
+				mi, ok := ci.Common().Args[idx].(*ssa.MakeInterface)
+				if !ok {
+					return nil
+				}
+				if t != nil && !types.Identical(t, mi.X.Type()) {
+					return nil
+				}
+				t = mi.X.Type()
+			}
+		}
+	}
+	if n == 0 {
+		return nil
+	}
+	return t
 }
